@@ -53,6 +53,10 @@ def plan(tier, seed):
 
 def g_arith(rng, d):
     r = rng.random()
+    if d > 0 and rng.random() < 0.03:
+        # a truth value in an arithmetic position ('not a + 1', '(a < b)*2', 'not a < b'): the printer has to
+        # parenthesise by precedence, whatever the operand means
+        return rng.choice([["not", g_bool(rng, d - 1)], g_bool(rng, d - 1), ["not", ["var", rng.choice(BVARS)]]])
     if d <= 0 or r < 0.22:
         if rng.random() < 0.35:
             return ["num", rng.choice(NUMS)]
@@ -279,6 +283,17 @@ def has_if_arg_before_arg(e):
     return any(has_if_arg_before_arg(x) for x in subs if isinstance(x, list))
 
 
+def has_right_nested_comparison(e):
+    k = e[0]
+    if k in ("num", "var", "cnum", "bool"):
+        return False
+    if k == "cmp" and e[3][0] == "cmp":
+        return True
+    subs = ([e[2], e[3]] if k == "cmp" else _args_of(e) if k == "call" else
+            [x for x in e[1:] if isinstance(x, list)])
+    return any(has_right_nested_comparison(x) for x in subs)
+
+
 def has_left_nested_power(e):
     k = e[0]
     if k in ("num", "var", "cnum", "bool"):
@@ -299,6 +314,8 @@ def classify(code, e):
         return "ifexpr-argument-followed-by-argument", m
     if k == "**" and m[1][0] == "**":
         return "left-nested-power", m
+    if k == "cmp" and m[3][0] == "cmp":
+        return "right-nested-comparison", m
     if k == "**":
         b = m[1]
         base = ("negative-literal" if (b[0] == "num" and b[1] < 0) else b[0])
@@ -353,9 +370,9 @@ def run_shard(shard, rec):
                 e = rng.choice([["*", ["cnum", 0.0, 1.0], e], ["max", e, ["num", 1]], ["min", ["var", "x"], e]])
             if size(e) > 80:
                 continue
-            if has_left_nested_power(e) and rng.random() < 0.9:
-                # the open finding (pymbolic's printer): keep most of the
-                # corpus free of it so it cannot hide anything else
+            if (has_left_nested_power(e) or has_right_nested_comparison(e)) and rng.random() < 0.9:
+                # the open findings (pymbolic's printer): keep most of the
+                # corpus free of them so they cannot hide anything else
                 rec.count("regenerated_to_avoid_known_shapes")
                 continue
             check_expr(e, rec)
